@@ -171,8 +171,11 @@ Sol3 == {SCk(<<"N", "D", "M">>, solvent, <<One, R(1, 2), One>>, xsolv, given, nu
            tu \in {"L", "g"}, skew \in {One, R(3, 2)}}
 \* a solvent container that already holds the solute: only quantity + total (the quantity is what is added)
 SolStock == {SC(<<"N">>, "vs", <<x>>, I(3), "qt", <<"g">>, <<"g">>, <<qu>>, tu) : x \in {One, R(1, 2)}, qu \in QtyUnits("N"), tu \in DenUnits}
-SOL_CasesQuick == Sol1(TRUE) \cup {c \in Sol2 : c.tu = "L"} \cup SolStock \cup {c \in Sol3 : c.tu = "L"}
-SOL_Cases == Sol1(FALSE) \cup Sol2 \cup SolStock \cup Sol3
+\* a solute stated as zero (quantity '0 g' with a total or with a concentration of zero): must be refused - with ValueError
+Sol0 == {SC(<<s>>, solvent, <<Zero>>, I(6), given, <<"g">>, <<"g">>, <<"g">>, "g") :
+           s \in {"N", "E"}, solvent \in {"W", "v2"}, given \in {"qt", "cq", "ct"}}
+SOL_CasesQuick == Sol0 \cup Sol1(TRUE) \cup {c \in Sol2 : c.tu = "L"} \cup SolStock \cup {c \in Sol3 : c.tu = "L"}
+SOL_Cases == Sol0 \cup Sol1(FALSE) \cup Sol2 \cup SolStock \cup Sol3
 FR(src, solute, solvent, fx, y, nu, du, tu) ==
   [src |-> src, n |-> "o", solute |-> solute, solvent |-> solvent, fx |-> fx, y |-> y, nu |-> nu, du |-> du, tu |-> tu]
 SOL_From(quick) ==
